@@ -11,7 +11,8 @@ from vf.gen import samples as GS
 from vf.ref.model import Model, observe, compare
 
 EDIT = GL.Profile(max_surfs=12, shapes=['standard', 'standard', 'even_asphere', 'polynomial', 'chebyshev'],
-                  allow_tilt=True, keep_edges=False, sym_coef_from=0, max_field_deg=10.0, rho_min=1.5, steep_prob=0.1)
+                  allow_tilt=True, keep_edges=False, sym_coef_from=0, max_field_deg=10.0, rho_min=1.5, steep_prob=0.1,
+                  ap_types=['EPD', 'EPD', 'EPD', 'imageFNO', 'objectNA'])
 
 f = st.floats
 sel = st.integers(0, 1000)
@@ -41,7 +42,10 @@ def op_strategy():
         st.fixed_dictionaries(dict(op=st.just('add_wavelength'), v=f(0.45, 0.70), prim=st.booleans(),
                                    unit=st.sampled_from(['um', 'nm', 'mm']))),
     ]
-    return st.lists(st.one_of(ops), min_size=1, max_size=30)
+    solve = ops[7]
+    upd = ops[8]
+    pick = ops[6]
+    return st.lists(st.one_of(ops + [solve, solve, upd, upd, pick]), min_size=4, max_size=30)
 
 
 def stop_ops():
@@ -77,7 +81,7 @@ class C01(Check):
     def strategy(self, tier):
         edit = st.fixed_dictionaries(dict(kind=st.just('edit'), spec=GL.lens_spec(EDIT), ops=op_strategy()))
         stop = st.fixed_dictionaries(dict(kind=st.just('stop'), spec=GL.lens_spec(EDIT, max_surfs=5), ops=stop_ops()))
-        return st.one_of(edit, edit, edit, stop)
+        return st.one_of(edit, edit, edit, edit, edit, edit, stop)
 
     def describe(self, case):
         s = case['spec']
